@@ -228,6 +228,20 @@ def prove(theorem_files):
     return res
 
 
+def coqchk(theorem_files, timeout=3000):
+    """coqchk -o over the property modules: re-checks the .vo files (and all they depend on) with the independent checker and
+    lists the axioms of every loaded library"""
+    mods = ["Parmcb." + tf[:-2] for tf in theorem_files]
+    rc, so, se = sh(["coqchk", "-silent", "-o", "-Q", "theories", "Parmcb"] + mods, cwd=COQ, timeout=timeout)
+    out = so + se
+    ax = []
+    m = re.search(r"\* Axioms:(.*?)\n\s*\n\* Constants", out, re.S)
+    if m:
+        ax = [a.strip() for a in m.group(1).strip().split("\n") if a.strip() and a.strip() != "<none>"]
+    bad = [k for k in ("type-in-type", "unsafe (co)fixpoints", "positivity is assumed") if re.search(re.escape(k) + r":\s*(?!<none>)\S", out)]
+    return {"ok": rc == 0 and not bad, "axioms_of_loaded_libraries": ax, "relaxed_checks": bad, "log": out[-1500:]}
+
+
 # --------------------------------------------------------------------------------------
 # model (extracted OCaml)
 # --------------------------------------------------------------------------------------
@@ -471,6 +485,10 @@ class Check:
             self.proof = {"obligations": 0, "discharged": 0, "theorems": [], "problems": [], "axioms_used": []}
             return True
         self.proof = prove(self.theorem_files)
+        if self.tier == "thorough" and not self.proof["problems"] and not os.environ.get("VERIF_NO_COQCHK"):
+            self.extra["coqchk"] = coqchk(self.theorem_files)       # independent re-check of the compiled files and everything they load
+            if not self.extra["coqchk"]["ok"]:
+                self.proof["problems"].append("coqchk rejects the compiled development: " + self.extra["coqchk"]["log"][-600:])
         for pb in self.proof["problems"]:
             self.violation("proof obligation no longer checks: " + pb[:300],
                            {"theorem_or_correspondence": pb, "kind": "proof"}, found_input=False)
